@@ -267,7 +267,7 @@ def rule_E5(ctx: Ctx) -> None:
     d = X.assignments_to(f.node, saved) if saved else []
     src_ok = len(d) == 1 and X.U(d[0]) in ("self.cfg.applied_filters", "output.cfg.applied_filters", "list(self.cfg.applied_filters)", "self.cfg.applied_filters.copy()")
     resets = [n for n in f.node.body if isinstance(n, ast.Assign) and X.U(n.targets[0]).endswith(".cfg.applied_filters")
-              and X.U(n.value) in ("list()", "[]")]
+              and X.U(n.value) in ("list()", "[]")]  # canonical: []
     reset_ok = len(resets) == 1 and f.node.body.index(resets[0]) < f.node.body.index(lp)
     info = lp.target.id if isinstance(lp.target, ast.Name) else None
     call = None
@@ -283,10 +283,11 @@ def rule_E5(ctx: Ctx) -> None:
         def comes_from(e, key):
             if e is None:
                 return False
+            forms = (f'{info}["{key}"]', f'{info}.get("{key}", [])', f'{info}.get("{key}", {{}})', f'{info}.get("{key}", ())')
             if isinstance(e, ast.Name):
                 ds_ = X.assignments_to(lp, e.id)
-                return len(ds_) == 1 and f'{info}["{key}"]' in X.U(ds_[0]).replace("'", '"')
-            return f'{info}["{key}"]' in X.U(e).replace("'", '"')
+                return len(ds_) == 1 and X.U(ds_[0]).replace("'", '"') in forms
+            return X.U(e).replace("'", '"') in forms
         star = [a.value for a in call.args if isinstance(a, ast.Starred)]
         dstar = [k.value for k in call.keywords if k.arg is None]
         call_ok = X.U(ga.args[0]) == "output.filter_by" and comes_from(name_arg, "name") and len(star) == 1 and comes_from(star[0], "args") \
